@@ -30,7 +30,7 @@ static void wraps_begin(void) { memcpy(wrap_snapshot, pv_wrap_count, sizeof wrap
 static uint64_t wraps_delta(int i) { return pv_wrap_count[i] - wrap_snapshot[i]; }
 
 /* ---------------------------------------------------------------- (a) randomness and clock */
-static uint64_t n_rand(void) { return 154 + pv_scaled(60000, 1500000); }
+static uint64_t n_rand(void) { return 154 + pv_scaled(60000, 15000000); }
 static void run_rand(uint64_t idx, pv_rng* rng) {
     static bool fresh = true; if (fresh) { pv_inject_default(); fresh = false; }
     uint8_t script[19]; memset(script, 0, 19);
@@ -109,7 +109,7 @@ static bool routed(const tbl* t, const char* api, bool expect_alloc, bool expect
     if (wraps_delta(PV_WRAP_CALLOC) || wraps_delta(PV_WRAP_REALLOC)) { ok = false; pv_violation("C18/other-libc-allocator", "%s used calloc/realloc", api); }
     return ok;
 }
-static uint64_t n_inject(void) { return 8 * 8 * pv_scaled(30, 600); }
+static uint64_t n_inject(void) { return 8 * 8 * pv_scaled(30, 5000); }
 static void run_inject(uint64_t idx, pv_rng* rng) {
     /* the last two tables of the history enumerate every ordered pair of NULL-combinations; earlier ones are random */
     int len = 1 + (int)((idx / 64) % 4);
